@@ -1,1 +1,9 @@
 import Hyeong.Props.C11
+#print axioms HyE.C11.dbg_no_crash
+#print axioms HyE.C11.invariant_preserved
+#print axioms HyE.C11.hist_inv
+#print axioms HyE.C11.state_shows_true_state
+#print axioms HyE.C11.state_command
+#print axioms HyE.C11.previous_exact
+#print axioms HyE.C11.run_stops_first_bp
+#print axioms HyE.C11.output_once
